@@ -146,8 +146,8 @@ def _maven_classpath():
     cp = ":".join(jars + sorted(glob.glob(os.path.join(MAVEN_LIB, "commons-lang3*.jar"))) +
                   sorted(glob.glob(os.path.join(MAVEN_LIB, "plexus-utils*.jar"))))
     out = os.path.join(REFBUILD, "maven")
-    src = os.path.join(HERE, "MavenRef.java")
-    cls = os.path.join(out, "MavenRef.class")
+    src = os.path.join(HERE, "MavenRangeRef.java")
+    cls = os.path.join(out, "MavenRangeRef.class")
     if not _newer(cls, src):
         os.makedirs(out, exist_ok=True)
         try:
@@ -183,7 +183,7 @@ def check(eco, pairs):
         cp = _maven_classpath()
         if cp is None:
             return None
-        return _line_tool(["java", "-cp", cp, "MavenRef"], pairs)
+        return _line_tool(["java", "-cp", cp, "MavenRangeRef"], pairs)
     raise ValueError(eco)
 
 
